@@ -123,7 +123,7 @@ fn alg_case(kind: &str, vs: Vec<usize>, es: Vec<(usize, usize)>, r: usize, mut t
     }
     let input = format!("vs={:?} es={:?} root={}", vs, es, r);
     Case {
-        coq: format!("KAlg {} {} {}\n   {}", nl(&vs), el(&es), r, run.coq),
+        coq: format!("(KAlg {} {} {}\n   {})%N", nl(&vs), el(&es), r, run.coq),
         descr: format!("graph {}", input),
         tags,
         nontrivial: unreach || cyc || vs.len() >= 4,
@@ -336,7 +336,7 @@ fn hist_case(r: &mut Rng) -> Case {
     t.push(format!("failing-ops:{}", if fails == 0 { "0" } else if fails < 5 { "1-4" } else { "5+" }));
     t.push(format!("removals-with-incident-edges:{}", rich_removals.min(3)));
     Case {
-        coq: format!("KHist {}\n   {}", coq_list(ops.iter().cloned()), coq_list(obs.iter().cloned())),
+        coq: format!("(KHist {}\n   {})%N", coq_list(ops.iter().cloned()), coq_list(obs.iter().cloned())),
         descr: format!("history {}", descr.join(" ")),
         tags: t,
         nontrivial: fails > 0 || rich_removals > 0,
@@ -356,6 +356,6 @@ fn main() {
     let idxs: Vec<u64> = match args.only { Some(i) => vec![i], None => (0..args.n).collect() };
     let cases: Vec<Case> = idxs.iter().map(|i| gen_case(args.seed, *i)).collect();
     write_cases(&args, "C11",
-        "From Coq Require Import NArith List.\nFrom Falcon Require Import Base.Res Graph.C11Check.\nImport ListNotations.\nLocal Open Scope N_scope.",
+        "From Coq Require Import NArith List.\nFrom Falcon Require Import Base.Res Graph.C11Check.\nImport ListNotations.",
         "ck", &cases, 16, serde_json::json!({"exhaustive_prefix": EXHAUSTIVE}));
 }
